@@ -46,6 +46,8 @@ structure Msg where
 def Msg.WF (m : Msg) : Prop :=
   m.salt < 2 ^ 64 ∧ m.sid < 2 ^ 64 ∧ m.mid < 2 ^ 64 ∧ m.seq < 2 ^ 32 ∧ m.body.length < 2 ^ 31
 
+instance (m : Msg) : Decidable m.WF := by unfold Msg.WF; infer_instance
+
 /-- `msg_id mod 4 ∈ {1, 3}`: a message from the server -/
 def serverParity (mid : Nat) : Prop := mid % 4 = 1 ∨ mid % 4 = 3
 
